@@ -45,6 +45,9 @@ pub(crate) struct Loop {
     pub start_ip: usize,
     // Placeholders for jumps to the end of the loop, updated when the loop compilation is complete
     pub jump_placeholders: Vec<usize>,
+    // The number of try blocks in the loop's body that are open at the current point,
+    // `break` and `continue` need to close them before jumping out of them.
+    pub open_try_blocks: usize,
 }
 
 #[derive(Clone, Debug, PartialEq)]
@@ -337,7 +340,22 @@ impl Frame {
             start_ip: loop_start_ip,
             result_register,
             jump_placeholders: Vec::new(),
+            open_try_blocks: 0,
         });
+    }
+
+    // Called when entering a try block (after its TryStart)
+    pub fn push_try_block(&mut self) {
+        if let Some(loop_info) = self.loop_stack.last_mut() {
+            loop_info.open_try_blocks += 1;
+        }
+    }
+
+    // Called when leaving a try block (before its TryEnd)
+    pub fn pop_try_block(&mut self) {
+        if let Some(loop_info) = self.loop_stack.last_mut() {
+            loop_info.open_try_blocks = loop_info.open_try_blocks.saturating_sub(1);
+        }
     }
 
     pub fn push_loop_jump_placeholder(&mut self, placeholder_ip: usize) -> Result<(), FrameError> {
